@@ -22,9 +22,10 @@ the previous start() returned, and -- with stop() -- from inside the looped func
 clause applies afresh to the new run (its own start time, interval, now flag, count sum), and the
 Deferred of every earlier start() must have fired exactly once, with its own result, for good.
 False-alarm guards: interval 0 is not generated ("positive interval"); reset() while a call is scheduled
-restarts the boundary grid at the reset time; reset() while an invocation is in progress (from inside the
-function, or while its Deferred is unfired) has no effect, as the code and docstring have it: the next call
-is scheduled from that call's completion on the unchanged grid; the count-sum rule is then not asserted (statement does not define it); stop() is only issued
+restarts the boundary grid at the reset time, the count-sum rule is then not asserted (statement does not
+define it); reset() while an invocation is in progress (from inside the function, or while its Deferred is
+unfired) has no effect, as the code and docstring have it: the next call is scheduled from that call's
+completion on the unchanged grid; stop() is only issued
 while running (it asserts otherwise); a stop() while the function's Deferred is outstanding fires
 start()'s Deferred when that Deferred fires (with its failure if it fails).
 """
